@@ -14,10 +14,12 @@ package jerr
 //@   attr pure deterministic
 //@   requires[C01,C07] len(b.data) > 0
 //@   ensures result <= index && result < len(b.data)
+// begin <= end is assumed for the pair (bounded conformance run): see quote()
+//@   ensures result <= endOfLine(b.data.arr, b.data.off, len(b.data), index)
 //@ extern (github.com/jsightapi/jsight-schema-core/bytes.Bytes).EndOfLine(b, index)
 //@   attr pure deterministic
 //@   requires[C01,C07] index <= len(b.data)
-//@   ensures result <= len(b.data)
+//@   ensures result <= len(b.data) && result == endOfLine(b.data.arr, b.data.off, len(b.data), index)
 //@ extern (github.com/jsightapi/jsight-schema-core/bytes.Bytes).LineAndColumn(b, index)
 //@   attr pure deterministic nopanic
 //@   ensures imp(len(b.data) == 0 || len(b.data) <= index, result0 == 0 && result1 == 0)
@@ -26,21 +28,22 @@ package jerr
 //@   attr pure deterministic nopanic
 //@   ensures len(result.data) <= len(b.data)
 
+//@ opaque fn endOfLine(arr int, off int, n int, index int) int
 // quote: begin <= end is the part of the dependency contract that is assumed (bounded-checked), see above.
-//@ extern github.com/jsightapi/jsight-api-core/jerr.quote(content, position)
-//@   attr pure deterministic
-//@   requires[C01,C07] len(content.data) > 0 && position <= len(content.data)
+//@ func quote(content, position)
+//@   property C01,C07
+//@   modifies nothing
 
 //@ func NewLocation(f, i)
 //@   property C07
-//@   requires[C01,C07] f != nil && len(f.content.data) > 0 && i <= len(f.content.data)
+//@   requires[C01,C07] f != nil
 //@   ensures result.File == f && result.Index == i
 //@   ensures imp(i < len(f.content.data), result.Line >= 1 && result.Column >= 1)
 
 // "an index inside that file": the C07 clause is i < len; i == len does not panic (C01) but is not inside the file.
 //@ func NewJApiError(msg, f, i)
 //@   property C07
-//@   requires[C01,C07,@err-file] f != nil && len(f.content.data) > 0 && i <= len(f.content.data)
+//@   requires[C01,C07,@err-file] f != nil
 //@   requires[C07,@err-index-inside] i < len(f.content.data)
 //@   ensures result != nil && fresh(result)
 //@   ensures result.Msg == msg && result.File == f && result.Index == i
@@ -49,7 +52,7 @@ package jerr
 
 //@ func (*JApiError).OccurredInFile(e, f, atByte)
 //@   property C07
-//@   requires[C01,C07] e != nil && f != nil && len(f.content.data) > 0 && atByte <= len(f.content.data)
+//@   requires[C01,C07] e != nil && f != nil
 //@   modifies e.includeTrace, e.includeTrace[:]
 //@   ensures len(e.includeTrace) == old(len(e.includeTrace)) + 1
 //@   ensures e.includeTrace.arr == old(e.includeTrace.arr) || fresh(e.includeTrace.arr)
